@@ -18,6 +18,7 @@
 //     G<v>.<i>  slot v ->ensure(i)   (address recorded: must survive every later move / swap)
 //     M<d>.<s>  slot d = new Vec(std::move(*slot s))    A<d>.<s>  *slot d = std::move(*slot s)    X<a>.<b>  swap
 //     K<v>      delete slot v                           T<v>      the threads operate on slot v (default 0)
+//     S<v>      snapshot of slot v (kept per slot number) R<v>.<i>  read [i] through the snapshot taken with S<v>
 //   the monitors line then also carries objs=<per slot bs:blocks:ctor:built-by-per-block:retired>/... nb=.. nk=..
 // stdout: one line per case:
 //   <case-id> ok steps=<n> | <per-op results, blocks numbered by first appearance> blocks=.. bdead=.. tables=.. tfreed=.. rlist=.. | mon=<verdicts> [! first violation]
@@ -37,7 +38,7 @@ using namespace babylon;
 
 // --------------------------------------------------------------------------- tracking state
 namespace trk {
-struct TableInfo { size_t size; bool ever_current = false; bool superseded = false; uint64_t sup_ns = 0; bool freed = false; uint64_t free_ns = 0; int frees = 0; };
+struct TableInfo { size_t size; bool ever_current = false; bool superseded = false; uint64_t sup_ns = 0; bool freed = false; uint64_t free_ns = 0; int frees = 0; int ident = -1; };
 struct BlockInfo { size_t size; bool published = false; bool freed = false; int frees = 0; bool freed_in_dtor = false; int seq = 0; };
 struct ElemInfo { int ctor = 0; int dtor = 0; bool live = false; };
 
@@ -52,6 +53,8 @@ static std::string* first_violation;
 static std::function<void()>* sampler;   // looks at _block_table, marks supersede times
 static bool v_ctor = true, v_dtor = true, v_cool = true, v_leak = true, v_snap = true, v_same = true, v_stable = true, v_segs = true;
 static bool stale_push = false;
+static int dying_ident = -2;          // >= -1 while a vector object (shell) is being deleted: identity of ITS contents
+static bool ident_alive[256];
 static int blocks_created = 0, blocks_dead = 0, tables_created = 0, tables_freed = 0, blocks_freed_all = 0;
 
 static void note(bool& flag, const std::string& what) {
@@ -110,6 +113,13 @@ static void tracked_delete(void* p, size_t align) {
     if (ti.freed) trk::note(trk::v_leak, "block table freed twice");
     else {
       ti.freed = true; ti.free_ns = trk::now();
+      if (trk::destructing && trk::dying_ident >= -1 && ti.ident >= 0 && ti.ident != trk::dying_ident && ti.ident < 256 &&
+          trk::ident_alive[ti.ident] && ti.superseded && ti.free_ns - ti.sup_ns < 64000000000ull) {
+        // a retired table of contents that live on in another vector object is freed by the destruction of a shell
+        snprintf(buf, sizeof buf, "block table freed %.3f s after the growth that superseded it (< 64 s cooling period), by the "
+                 "destruction of the vector object its elements were moved out of", (double)(ti.free_ns - ti.sup_ns) / 1e9);
+        trk::note(trk::v_cool, buf);
+      }
       if (!trk::destructing) {
         trk::tables_freed++;
         if (ti.ever_current && !ti.superseded) trk::note(trk::v_cool, "the CURRENT block table was freed");
@@ -239,6 +249,9 @@ static void run_case(const char* id, unsigned long long seed, int strategy, size
   Vec* slots[4] = {nullptr, nullptr, nullptr, nullptr};
   uint64_t slot_ctor[4] = {0, 0, 0, 0}; int slot_ident[4] = {-1, -1, -1, -1}; int next_ident = 0; int target = 0;
   std::map<std::pair<int, size_t>, Elem*> recorded;     // (identity of the contents, index) -> address handed out
+  typename Vec::Snapshot ssnap[4]; void* ssnap_tab[4] = {nullptr, nullptr, nullptr, nullptr}; int ssnap_ident[4] = {-1, -1, -1, -1};
+  memset(trk::ident_alive, 0, sizeof trk::ident_alive); trk::dying_ident = -2;
+  auto fresh_ident = [&]() { int k = next_ident++; if (k < 256) trk::ident_alive[k] = true; return k; };
   auto new_vec = [&](uint64_t k) -> Vec* {
     if (k <= 1) return (BS == 0) ? new Vec(hint) : new Vec();
     auto fn = [k](Elem* p) { new (p) Elem; p->ctor_id = k; };
@@ -258,7 +271,7 @@ static void run_case(const char* id, unsigned long long seed, int strategy, size
     }
     trk::in_hook--;
   };
-  if (setup.empty() || setup == "-") { slots[0] = new_vec(1); slot_ctor[0] = 1; slot_ident[0] = next_ident++; }
+  if (setup.empty() || setup == "-") { slots[0] = new_vec(1); slot_ctor[0] = 1; slot_ident[0] = fresh_ident(); }
   else {
    // run under the scheduler (one thread) so that retire() stamps come from the same virtual clock as later
    std::vector<std::function<void()>> setup_body;
@@ -271,11 +284,21 @@ static void run_case(const char* id, unsigned long long seed, int strategy, size
       if (dot != std::string::npos) b = atoll(o.c_str() + dot + 1);
       if (a < 0 || a > 3) continue;
       switch (o[0]) {
-        case 'D': if (!slots[a]) { slots[a] = new_vec(1); slot_ctor[a] = 1; slot_ident[a] = next_ident++; } break;
-        case 'N': if (!slots[a]) { slots[a] = new_vec((uint64_t)b); slot_ctor[a] = (uint64_t)b; slot_ident[a] = next_ident++; } break;
+        case 'D': if (!slots[a]) { slots[a] = new_vec(1); slot_ctor[a] = 1; slot_ident[a] = fresh_ident(); } break;
+        case 'N': if (!slots[a]) { slots[a] = new_vec((uint64_t)b); slot_ctor[a] = (uint64_t)b; slot_ident[a] = fresh_ident(); } break;
         case 'G': if (slots[a] && b >= 0) {
+          void* tab_before = (void*)slots[a]->_block_table.B::load(std::memory_order_relaxed);
           Elem* p = &slots[a]->ensure((size_t)b);
           trk::in_hook++;
+          {
+            void* tab_after = (void*)slots[a]->_block_table.B::load(std::memory_order_relaxed);
+            auto nw = tables.find(tab_after);
+            if (nw != tables.end()) { nw->second.ever_current = true; nw->second.ident = slot_ident[a]; }
+            if (tab_after != tab_before) {
+              auto od = tables.find(tab_before);
+              if (od != tables.end()) { od->second.ever_current = true; od->second.superseded = true; od->second.sup_ns = trk::now(); od->second.ident = slot_ident[a]; }
+            }
+          }
           auto e = elems.find(p);
           if (e == elems.end() || !e->second.live || p->magic != 0xC0FFEE) trk::note(trk::v_ctor, "ensure() returned an element that was never constructed (index " + std::to_string(b) + ")");
           else {
@@ -288,7 +311,7 @@ static void run_case(const char* id, unsigned long long seed, int strategy, size
         } break;
         case 'M': if (!slots[a] && b >= 0 && b < 4 && slots[b] && a != b) {
           slots[a] = new Vec(std::move(*slots[b]));
-          slot_ctor[a] = slot_ctor[b]; slot_ident[a] = slot_ident[b]; slot_ident[b] = next_ident++;
+          slot_ctor[a] = slot_ctor[b]; slot_ident[a] = slot_ident[b]; slot_ident[b] = fresh_ident();
           check_recorded("move construction");
         } break;
         case 'A': if (slots[a] && b >= 0 && b < 4 && slots[b] && a != b) {
@@ -301,7 +324,35 @@ static void run_case(const char* id, unsigned long long seed, int strategy, size
           std::swap(slot_ctor[a], slot_ctor[b]); std::swap(slot_ident[a], slot_ident[b]);
           check_recorded("swap");
         } break;
-        case 'K': if (slots[a]) { trk::destructing = true; delete slots[a]; trk::destructing = false; slots[a] = nullptr; slot_ident[a] = -1; } break;
+        case 'K': if (slots[a]) {
+          int di = slot_ident[a];
+          if (di >= 0 && di < 256) trk::ident_alive[di] = false;
+          trk::dying_ident = di; trk::destructing = true; delete slots[a]; trk::destructing = false; trk::dying_ident = -2;
+          slots[a] = nullptr; slot_ident[a] = -1;
+        } break;
+        case 'S': if (slots[a]) {
+          ssnap[a] = slots[a]->snapshot(); ssnap_tab[a] = (void*)ssnap[a]._block_table; ssnap_ident[a] = slot_ident[a];
+          trk::in_hook++; { auto it = tables.find(ssnap_tab[a]); if (it != tables.end()) { it->second.ever_current = true; it->second.ident = slot_ident[a]; } } trk::in_hook--;
+        } break;
+        case 'R': if (ssnap_tab[a] && b >= 0) {
+          trk::in_hook++;
+          auto it = tables.find(ssnap_tab[a]);
+          bool freed = it != tables.end() && it->second.freed;
+          bool alive = ssnap_ident[a] >= 0 && ssnap_ident[a] < 256 && trk::ident_alive[ssnap_ident[a]];
+          if (freed && alive && it->second.superseded && trk::now() - it->second.sup_ns <= 64000000000ull) {
+            char buf[256]; snprintf(buf, sizeof buf, "snapshot unusable (its table is freed) only %.3f s after the growth that superseded it, "
+                                    "the vector's elements are alive in another object", (double)(trk::now() - it->second.sup_ns) / 1e9);
+            trk::note(trk::v_snap, buf);
+          }
+          trk::in_hook--;
+          if (!freed && alive && (size_t)b < ssnap[a].size()) {
+            Elem* p = &ssnap[a][(size_t)b];
+            trk::in_hook++;
+            auto key = std::make_pair(ssnap_ident[a], (size_t)b);
+            if (recorded.count(key) && recorded[key] != p) trk::note(trk::v_same, "snapshot designates a different element for an index");
+            trk::in_hook--;
+          }
+        } break;
         case 'T': target = a; break;
       }
     }
@@ -310,7 +361,7 @@ static void run_case(const char* id, unsigned long long seed, int strategy, size
    verif::run(setup_body, sopt);
   }
   if (!slots[target]) { for (int v = 0; v < 4; ++v) if (slots[v]) { target = v; break; } }
-  if (!slots[target]) { slots[target] = new_vec(1); slot_ctor[target] = 1; slot_ident[target] = next_ident++; }
+  if (!slots[target]) { slots[target] = new_vec(1); slot_ctor[target] = 1; slot_ident[target] = fresh_ident(); }
   vec = slots[target];
   const uint64_t want_ctor = slot_ctor[target];
   const size_t bsize = vec->block_size();
